@@ -13,6 +13,7 @@ CONSTANTS
   Bugs <- D_001100
   Known <- D_001100
   WithPersist = TRUE
+  RefuseBeforeInit = FALSE
   KeepHist = FALSE
   Wrap = 4
   LoopAlloc = TRUE
